@@ -1,4 +1,5 @@
 ----------------------------- MODULE MCRegistry -----------------------------
 EXTENDS Registry
-ListsDef == {{}, {"i1", "i2"}, {"i1"}}
+\* "*" is the wildcard: a list may name it alone or next to identities (the lists differ, so do the addresses)
+ListsDef == {{}, {"i1", "i2"}, {"i1"}, {"*"}, {"*", "i1"}}
 =============================================================================
